@@ -114,3 +114,100 @@ func VerifC18_readers_regex_separators() {
 	c05ReadAll(r, []string{"f"})
 	verifReach("C18/readers-regex/end")
 }
+
+// Repeated field names in one record, in wide lines: with the default --dedupe-field-names the
+// second occurrence is renamed "<name>_2", with --no-dedupe-field-names the later value replaces
+// the earlier one in place; neither may crash whatever the width of the line (n over {3, 8, 9, 17,
+// 33}: around the record arena's first slab) and the batch size (1 or 500), for every line-oriented
+// reader that has names.  Two records; the repeated pair of positions is chosen per path.
+//verif:opts engine-only maxpaths=100000 unwind=2000
+func VerifC18_readers_repeated_names_wide() {
+	verifReplace("github.com/johnkerl/miller/v6/pkg/lib.OpenFileForRead", c05Open)
+	format := []string{"dkvp", "csvlite", "csv", "tsv", "xtab", "pprint"}[verifChoice("format", 6)]
+	n := []int{3, 8, 9, 17, 33}[verifChoice("fields", 5)]
+	i := []int{0, n - 2}[verifChoice("first_occurrence", 2)]
+	j := []int{i + 1, n - 1}[verifChoice("second_occurrence", 2)]
+	dedupe := verifChoice("no_dedupe", 2) == 0
+	batch := []int64{1, 500}[verifChoice("batch", 2)]
+	last := verifString("last_value", 1)
+	verifAssume(last[0] >= 'a' && last[0] <= 'z')
+	itoa := func(k int) string {
+		if k < 10 {
+			return string(rune('0' + k))
+		}
+		return string(rune('0'+k/10)) + string(rune('0'+k%10))
+	}
+	names, values := make([]string, n), make([]string, n)
+	for k := 0; k < n; k++ {
+		names[k], values[k] = "k"+itoa(k), "v"+itoa(k)
+	}
+	names[j] = names[i]
+	values[n-1] = last
+	join := func(parts []string, sep string) string {
+		s := ""
+		for k, p := range parts {
+			if k > 0 {
+				s += sep
+			}
+			s += p
+		}
+		return s
+	}
+	text := ""
+	switch format {
+	case "dkvp":
+		pairs := make([]string, n)
+		for k := range pairs {
+			pairs[k] = names[k] + "=" + values[k]
+		}
+		text = join(pairs, ",") + "\n" + join(pairs, ",") + "\n"
+	case "csvlite", "csv":
+		text = join(names, ",") + "\n" + join(values, ",") + "\n" + join(values, ",") + "\n"
+	case "tsv":
+		text = join(names, "\t") + "\n" + join(values, "\t") + "\n" + join(values, "\t") + "\n"
+	case "pprint":
+		text = join(names, " ") + "\n" + join(values, " ") + "\n" + join(values, " ") + "\n"
+	case "xtab":
+		for r := 0; r < 2; r++ {
+			for k := 0; k < n; k++ {
+				text += names[k] + " " + values[k] + "\n"
+			}
+			text += "\n"
+		}
+	}
+	o := cli.DefaultOptions()
+	o.ReaderOptions.InputFileFormat = format
+	if !dedupe {
+		all := []string{"--no-dedupe-field-names"}
+		argi := 0
+		ok, err := cli.FLAG_TABLE.Parse(all, 1, &argi, o)
+		verifAssert(ok && err == nil, "C18/repeated-names/flag-accepted")
+	}
+	verifAssert(cli.FinalizeReaderOptions(&o.ReaderOptions) == nil, "C18/repeated-names/options")
+	r, err := Create(&o.ReaderOptions, batch)
+	verifAssert(err == nil && r != nil, "C18/repeated-names/reader-created")
+	c05Files = map[string]string{"f": text}
+	got := c05ReadAll(r, []string{"f"})
+	verifAssert(!got.hadErr && len(got.recs) == 2, "C18/repeated-names/two-records-read")
+	for _, rac := range got.recs {
+		var wantK, wantV []string
+		for k := 0; k < n; k++ {
+			switch {
+			case k == j && dedupe:
+				wantK, wantV = append(wantK, names[k]+"_2"), append(wantV, values[k])
+			case k == j:
+			case k == i && !dedupe:
+				wantK, wantV = append(wantK, names[k]), append(wantV, values[j])
+			default:
+				wantK, wantV = append(wantK, names[k]), append(wantV, values[k])
+			}
+		}
+		verifAssert(rac.Record.FieldCount == int64(len(wantK)), "C18/repeated-names/field-count")
+		pe := rac.Record.Head
+		for k := 0; k < len(wantK) && pe != nil; k++ {
+			verifAssert(pe.Key == wantK[k] && pe.Value.String() == wantV[k], "C18/repeated-names/documented-names-and-values")
+			pe = pe.Next
+		}
+	}
+	verifReach("C18/repeated-names/end")
+}
